@@ -49,6 +49,7 @@ class Check:
         self.not_decided = ""
         self.configs = []
         self.known_hits = []
+        self.relaxed = False
 
     # ---- obligations -------------------------------------------------------------
     def ob(self, rule, fn, what, ok, loc=None, detail=None, path=None, key=None):
@@ -85,8 +86,8 @@ class Check:
 
     def floor(self, rule, what, count, minimum):
         """instance-count floor: fewer instances than confirmed by hand => analysis broken"""
-        self.analysed["%s: %s" % (rule, what)] = count
-        if count < minimum:
+        self.analysed["%s: %s%s" % (rule, what, " [portable]" if self.relaxed else "")] = count
+        if count < minimum and not self.relaxed:
             raise AnalysisBroken("%s: %s matched %d instance(s), expected at least %d — the rule "
                                  "would pass vacuously" % (rule, what, count, minimum))
 
